@@ -25,11 +25,13 @@ package pool
 
 //@ func (ap *AttestationPool) AddAttestation(ctx, att, committee) err
 //@   property C20 C17
+//@   opt section=RWMutex
 //@   requires ap != nil && att != nil && held(ap.RWMutex) == 0
 //@   requires ap_wf(ap.datas, ap.individual, ap.aggregate, ap.aggPerValidator)
 //@   requires wellformed: bl_len(att.AggregationBits) == len(committee)
 //@   assigns ap.datas, ap.individual, ap.aggregate, ap.aggPerValidator, heap(MinAggregates.Extra), heap(MinAggregates.Aggregates)
 //@   ensures lock: held(ap.RWMutex) == 0
+//@   ensures atomic@C17: sections(ap.RWMutex) <= old(sections(ap.RWMutex)) + 1
 //@   ensures wf: ap_wf(ap.datas, ap.individual, ap.aggregate, ap.aggPerValidator)
 //@   ensures empty: bl_count(att.AggregationBits) == 0 ==> err != nil && unchanged(ap.datas) && unchanged(ap.individual) && unchanged(ap.aggregate)
 //@   ensures data_kept: forall r RootK :: {ap.datas[r]} old(has(ap.datas, r)) ==> has(ap.datas, r) && ap.datas[r] == old(ap.datas[r])
@@ -53,10 +55,12 @@ package pool
 // arbitrary present key); what is returned / removed is not described yet.
 //@ func (ap *AttestationPool) Search(opts) out
 //@   property C20 C17
+//@   opt section=RWMutex
 //@   opt dyncalls=args-only
 //@   requires ap != nil && held(ap.RWMutex) == 0
 //@   requires ap_wf(ap.datas, ap.individual, ap.aggregate, ap.aggPerValidator)
 //@   ensures lock: held(ap.RWMutex) == 0
+//@   ensures atomic@C17: sections(ap.RWMutex) <= old(sections(ap.RWMutex)) + 1
 //@   ensures unchanged(ap.datas) && unchanged(ap.individual) && unchanged(ap.aggregate)
 
 // Prune(epoch) removes exactly what can no longer be included: data (and its aggregates) with
@@ -65,10 +69,12 @@ package pool
 //@ define prune_min(e int) int = ite(e == 0, 0, e - 1)
 //@ func (ap *AttestationPool) Prune(epoch) 
 //@   property C20 C17
+//@   opt section=RWMutex
 //@   requires ap != nil && held(ap.RWMutex) == 0
 //@   requires ap_wf(ap.datas, ap.individual, ap.aggregate, ap.aggPerValidator)
 //@   assigns ap.datas, ap.individual, ap.aggregate, ap.aggPerValidator
 //@   ensures lock: held(ap.RWMutex) == 0
+//@   ensures atomic@C17: sections(ap.RWMutex) <= old(sections(ap.RWMutex)) + 1
 //@   ensures wf: ap_wf(ap.datas, ap.individual, ap.aggregate, ap.aggPerValidator)
 //@   ensures datas: forall r RootK :: {ap.datas[r]} {old(ap.datas[r])} has(ap.datas, r) <==> old(has(ap.datas, r)) && old(ap.datas[r]).Data.Target.Epoch >= prune_min(epoch)
 //@   ensures datas_same: forall r RootK :: {ap.datas[r]} has(ap.datas, r) ==> ap.datas[r] == old(ap.datas[r])
@@ -111,17 +117,21 @@ package pool
 
 //@ func (vep *VoluntaryExitPool) AddVoluntaryExit(ctx, exit) err
 //@   property C20 C17
+//@   opt section=RWMutex
 //@   requires vep != nil && exit != nil && held(vep.RWMutex) == 0 && !isnil(vep.exits)
 //@   assigns vep.exits
 //@   ensures lock: held(vep.RWMutex) == 0
+//@   ensures atomic@C17: sections(vep.RWMutex) <= old(sections(vep.RWMutex)) + 1
 //@   ensures stored: err == nil ==> has(vep.exits, exit.Message.ValidatorIndex) && vep.exits[exit.Message.ValidatorIndex] == exit && !old(has(vep.exits, exit.Message.ValidatorIndex))
 //@   ensures refused: err != nil ==> unchanged(vep.exits)
 //@   ensures others: forall k VIdx :: {vep.exits[k]} old(has(vep.exits, k)) ==> has(vep.exits, k) && vep.exits[k] == old(vep.exits[k])
 
 //@ func (vep *VoluntaryExitPool) All() out
 //@   property C20 C17
+//@   opt section=RWMutex
 //@   requires vep != nil && held(vep.RWMutex) == 0
 //@   ensures lock: held(vep.RWMutex) == 0
+//@   ensures atomic@C17: sections(vep.RWMutex) <= old(sections(vep.RWMutex)) + 1
 //@   ensures unchanged(vep.exits)
 
 //@ func NewProposerSlashingPool(spec) p
@@ -130,17 +140,21 @@ package pool
 
 //@ func (psp *ProposerSlashingPool) AddProposerSlashing(ctx, sl) err
 //@   property C20 C17
+//@   opt section=RWMutex
 //@   requires psp != nil && sl != nil && held(psp.RWMutex) == 0 && !isnil(psp.slashings)
 //@   assigns psp.slashings
 //@   ensures lock: held(psp.RWMutex) == 0
+//@   ensures atomic@C17: sections(psp.RWMutex) <= old(sections(psp.RWMutex)) + 1
 //@   ensures stored: err == nil ==> has(psp.slashings, sl.SignedHeader1.Message.ProposerIndex) && psp.slashings[sl.SignedHeader1.Message.ProposerIndex] == sl
 //@   ensures refused: err != nil ==> unchanged(psp.slashings)
 //@   ensures others: forall k VIdx :: {psp.slashings[k]} old(has(psp.slashings, k)) ==> has(psp.slashings, k) && psp.slashings[k] == old(psp.slashings[k])
 
 //@ func (psp *ProposerSlashingPool) All() out
 //@   property C20 C17
+//@   opt section=RWMutex
 //@   requires psp != nil && held(psp.RWMutex) == 0
 //@   ensures lock: held(psp.RWMutex) == 0
+//@   ensures atomic@C17: sections(psp.RWMutex) <= old(sections(psp.RWMutex)) + 1
 //@   ensures unchanged(psp.slashings)
 
 //@ func NewAttesterSlashingPool(spec) p
@@ -162,10 +176,12 @@ package pool
 // A message is stored in the buffer of its slot (previous / current / next), or refused with nothing changed.
 //@ func (sp *SyncCommitteePool) AddSyncCommitteeMessage(ctx, msg) err
 //@   property C20 C17
+//@   opt section=Mutex
 //@   requires sp != nil && msg != nil && held(sp.Mutex) == 0
 //@   requires sp_wf(sp.prevMsgs, sp.currentMsgs, sp.nextMsgs, sp.prevContribs, sp.currentContribs, sp.nextContribs)
 //@   assigns sp.prevMsgs, sp.currentMsgs, sp.nextMsgs
 //@   ensures lock: held(sp.Mutex) == 0
+//@   ensures atomic@C17: sections(sp.Mutex) <= old(sections(sp.Mutex)) + 1
 //@   ensures wf: sp_wf(sp.prevMsgs, sp.currentMsgs, sp.nextMsgs, sp.prevContribs, sp.currentContribs, sp.nextContribs)
 //@   ensures current: err == nil && sp.currentSlot == msg.Slot ==> has(sp.currentMsgs, msg.ValidatorIndex) && sp.currentMsgs[msg.ValidatorIndex] == msg
 //@   ensures refused: err != nil ==> unchanged(sp.prevMsgs) && unchanged(sp.currentMsgs) && unchanged(sp.nextMsgs)
@@ -173,10 +189,12 @@ package pool
 
 //@ func (sp *SyncCommitteePool) AddSyncCommitteeContribution(ctx, contrib) err
 //@   property C20 C17
+//@   opt section=Mutex
 //@   requires sp != nil && contrib != nil && held(sp.Mutex) == 0
 //@   requires sp_wf(sp.prevMsgs, sp.currentMsgs, sp.nextMsgs, sp.prevContribs, sp.currentContribs, sp.nextContribs)
 //@   assigns sp.prevContribs, sp.currentContribs, sp.nextContribs
 //@   ensures lock: held(sp.Mutex) == 0
+//@   ensures atomic@C17: sections(sp.Mutex) <= old(sections(sp.Mutex)) + 1
 //@   ensures refused: err != nil ==> unchanged(sp.prevContribs) && unchanged(sp.currentContribs) && unchanged(sp.nextContribs)
 //@   ensures window: sp.currentSlot == contrib.Slot ==> err == nil
 
@@ -184,9 +202,11 @@ package pool
 // Reset(slot): rotate the three buffers by one slot in either direction, keep them for the same slot, clear them otherwise.
 //@ func (sp *SyncCommitteePool) Reset(slot)
 //@   property C20 C17
+//@   opt section=Mutex
 //@   requires sp != nil && sp.spec != nil && held(sp.Mutex) == 0
 //@   assigns sp.currentSlot, sp.prevContribs, sp.currentContribs, sp.nextContribs, sp.prevMsgs, sp.currentMsgs, sp.nextMsgs
 //@   ensures lock: held(sp.Mutex) == 0
+//@   ensures atomic@C17: sections(sp.Mutex) <= old(sections(sp.Mutex)) + 1
 //@   ensures slot: sp.currentSlot == slot
 //@   ensures same: old(sp.currentSlot) == slot ==> unchanged(sp.prevMsgs) && unchanged(sp.currentMsgs) && unchanged(sp.nextMsgs) && unchanged(sp.prevContribs) && unchanged(sp.currentContribs) && unchanged(sp.nextContribs)
 //@   ensures forward: (old(sp.currentSlot) + 1) % 18446744073709551616 == slot && old(sp.currentSlot) != (slot + 1) % 18446744073709551616 ==> sp.prevMsgs == old(sp.currentMsgs) && sp.currentMsgs == old(sp.nextMsgs) && len(sp.nextMsgs) == 0 && !isnil(sp.nextMsgs) && sp.prevContribs == old(sp.currentContribs) && sp.currentContribs == old(sp.nextContribs) && len(sp.nextContribs) == 0 && !isnil(sp.nextContribs)
@@ -202,15 +222,19 @@ package pool
 //@ sort ASlashT = map[common.Root]*phase0.AttesterSlashing
 //@ func (asp *AttesterSlashingPool) AddAttesterSlashing(ctx, sl) err
 //@   property C20 C17
+//@   opt section=RWMutex
 //@   requires asp != nil && sl != nil && held(asp.RWMutex) == 0 && !isnil(asp.slashings)
 //@   assigns asp.slashings
 //@   ensures lock: held(asp.RWMutex) == 0
+//@   ensures atomic@C17: sections(asp.RWMutex) <= old(sections(asp.RWMutex)) + 1
 //@   ensures stored: err == nil ==> (exists r RootK :: has(asp.slashings, r) && asp.slashings[r] == sl && !old(has(asp.slashings, r)))
 //@   ensures refused: err != nil ==> unchanged(asp.slashings)
 //@   ensures others: forall k RootK :: {asp.slashings[k]} old(has(asp.slashings, k)) ==> has(asp.slashings, k) && asp.slashings[k] == old(asp.slashings[k])
 
 //@ func (asp *AttesterSlashingPool) All() out
 //@   property C20 C17
+//@   opt section=RWMutex
 //@   requires asp != nil && held(asp.RWMutex) == 0
 //@   ensures lock: held(asp.RWMutex) == 0
+//@   ensures atomic@C17: sections(asp.RWMutex) <= old(sections(asp.RWMutex)) + 1
 //@   ensures unchanged(asp.slashings)
